@@ -321,6 +321,22 @@ func run(r *lib.Run) {
 		}
 	}
 
+	// 2a'. long streams: as many items as an offer can carry, and more, with and without a malformed tail (a decoder
+	// that stops looking after some number of items accepts whatever follows)
+	for i, n := range []int{63, 64, 65, 66, 100, 128, 1000} {
+		rng := r.RNG("long-stream", i)
+		var xs [][]byte
+		for j := 0; j < n; j++ {
+			xs = append(xs, fill(rng, []int{0, 1, 3, 40, 127, 128}[rng.Intn(6)]))
+		}
+		enc := portalwire.VerifEncodeContents(xs)
+		checkDecode("long-stream", enc)
+		for _, tail := range [][]byte{{0x05, 1, 2}, {0x80}, {0xff, 0xff}, {0xff, 0xff, 0xff, 0xff, 0x7f}, {0x80, 0x80, 0x80, 0x80, 0x10}, {0x7f}} {
+			checkDecode("long-stream-malformed-tail", append(append([]byte{}, enc...), tail...))
+		}
+		checkDecode("long-stream-cut", enc[:len(enc)-1-rng.Intn(3)])
+	}
+
 	// 2b. varint pattern classes: every length 1..5, continuation bits, high-bit payloads
 	var patterns [][]byte
 	for l := 1; l <= 6; l++ {
